@@ -46,6 +46,11 @@ func (x *Exec) localEnv(st *State, fr *frame, env *Env, pos token.Pos) {
 				if obj, ok := in.Object().(*types.Var); ok {
 					if _, have := env.vars[obj.Name()]; have {
 						env.typs[obj.Name()] = obj.Type()
+					} else if !in.IsAddr {
+						// a source-level local that was not assigned on this path (e.g. the iteration was left by
+						// `continue` before the assignment): an undefined value of its type
+						env.vars[obj.Name()] = x.s.symVal("undef.local:"+obj.Name(), obj.Type())
+						env.typs[obj.Name()] = obj.Type()
 					}
 				}
 			case *ssa.Alloc:
